@@ -710,7 +710,10 @@ func ruleDependenciesFirst(c *core.Ctx) {
 			if f := core.Callee(info, ce); f != nil && f.Pkg() == p.Types {
 				if fd := c.Decl(f); fd != nil && fd.Body != nil && fd != d {
 					ff := f
-					cands = append(cands, recFn{fd.Body, func(call *ast.CallExpr) bool { g := core.Callee(info, call); return g != nil && g.Origin() == ff.Origin() }})
+					cands = append(cands, recFn{fd.Body, func(call *ast.CallExpr) bool {
+						g := core.Callee(info, call)
+						return g != nil && g.Origin() == ff.Origin()
+					}})
 				}
 			}
 		}
